@@ -231,6 +231,40 @@ struct Harness {
       return node;
    }
 
+   // Long, unique spellings (20-60 KB each) requested through every spelling-keyed constructor until the string arena has
+   // rolled over `rollovers` pools: names built late in a Lexicon's life, on fresh pools, with other requests in between.
+   void bulk_spellings(int rollovers)
+   {
+      const auto& arena = Inspector::arena(Inspector::strings(static_cast<const impl::name_factory&>(lex)));
+      const long long start = Inspector::arena_pools(arena);
+      long long serial = 0;
+      while (Inspector::arena_pools(arena) < start + rollovers && serial < 400) {
+         std::string w = "bulk" + std::to_string(serial++) + "_";
+         const std::size_t len = 20000 + rng.below(40000);
+         while (w.size() < len) w += char('a' + rng.below(26));
+         words.push_back(w);
+         const int ctors[] = { IDENT, OPER, LOGO, LITERAL, LINKAGE, CONVENTION };
+         Req r; r.ctor = ctors[rng.below(6)]; r.word = w; r.type = rng.pick(types);
+         execute(r, int(rng.below(16))); history.push_back(r);
+         // ordinary requests in between, some of them for short new words
+         for (int k = 0; k < 3; ++k) {
+            Req q = fresh();
+            if (rng.chance(30)) { q.ctor = IDENT; q.word = "late" + std::to_string(serial) + "_" + std::to_string(k); words.push_back(q.word); }
+            execute(q, int(rng.below(16))); history.push_back(q);
+         }
+         ctx().count("bulk_spellings");
+      }
+      ctx().count("string_pool_rollovers_during_name_requests", Inspector::arena_pools(arena) - start);
+   }
+   // every request of the history once more, through a random equivalent entry point
+   void replay_all()
+   {
+      std::vector<Req> all(history);
+      for (std::size_t i = all.size(); i > 1; --i) std::swap(all[i - 1], all[rng.below(i)]);
+      for (auto& r : all) execute(r, int(rng.below(16)));
+      ctx().count("final_replays", (long long)all.size());
+   }
+
    void bad(const Req& r, const char* what) { ctx().viol(std::string(ctor_name[r.ctor]) + ":operands", what, describe(r)); }
    std::string describe(const Req& r)
    {
@@ -347,7 +381,7 @@ static void body(Ctx& C)
    C.assume("the 56 reserved spellings of the pinned tree are the oracle for which identifiers are process-wide constants");
    for (int c = 0; c < NCTOR; ++c) { C.need(std::string("distinct_keys:") + ctor_name[c]); C.need(std::string("re_requests:") + ctor_name[c]); }
    C.need("single_identifier_checks"); C.need("reserved_word_checks"); C.need("equality_pairs"); C.need("table_validations");
-   C.need("symbol_route_label"); C.need("symbol_route_this"); C.need("symbol_route_direct");
+   C.need("string_pool_rollovers_during_name_requests"); C.need("final_replays"); C.need("symbol_route_label"); C.need("symbol_route_this"); C.need("symbol_route_direct");
    const int histories = C.thorough ? 12 : 3;
    const long long nreq = C.thorough ? 150000 : 6000;
    Rng seeds(C.seed);
@@ -359,6 +393,8 @@ static void body(Ctx& C)
          else { Req r = H.fresh(); H.execute(r, int(H.rng.below(16))); H.history.push_back(r); }
          if ((i + 1) % 4096 == 0) H.quiescent();
       }
+      H.bulk_spellings(C.thorough ? 6 : 2);
+      H.replay_all();
       H.single_identifier_rule();
       H.value_equalities();
       H.quiescent();
